@@ -199,12 +199,14 @@ def partition_beyond_output_extent(case):
         return False
     R, Wn = case["part_rank"], case["follower"]
     Q, W = case["extents"][R], case["extents"][Wn]
-    a = 1
+    a, pre = 1, 0
     for trank, terms in case["affine"]:
         if trank == Wn:
             a = dict((v, c) for c, v in terms)[R]
+            # a pre-halo (negative coefficients) makes partitions exist up to max coordinate + pre-halo
+            pre = sum(-c * (case["extents"][v] - 1) for c, v in terms if c < 0)
     for step in _steps(case):
-        if step * ((W - 1) // (a * step)) > Q:
+        if step * ((W - 1 + pre) // (a * step)) > Q - (1 if pre else 0):
             return True
     return False
 
